@@ -1,0 +1,61 @@
+//go:build verif
+
+// Contracts for govc (/verif): C24, part 2: expiry of local proposals (kernel/cosi.go: expireCosiAggregators).
+// Comment-only file.
+
+package kernel
+
+// ThresholdAt(node, ts, final): the value of node.ConsensusThreshold(ts, final) while one expiry pass runs (assumed clause on the C10 contract
+// of ConsensusThreshold: the membership view is not written by the pass).
+//@ uninterp ThresholdAt(node *Node, ts uint64, final bool) int
+
+// AggsOK: representation invariant of Chain.CosiAggregators, established by cosiSendAnnouncement (the only writer: `s.Hash = s.PayloadHash()`,
+// then `CosiAggregators[s.Hash] = agg` with all maps made) and kept by the single CoSi goroutine: an aggregator is keyed by the hash of its
+// own snapshot, its parts exist, its snapshot timestamp is a UnixNano value (< 2^63, as in C19), and its commitment/response maps are objects
+// of their own (they are not the chain's two CoSi maps: different Go types), allocated before the pass starts.
+//@ spec AggOK(chain *Chain, agg *CosiAggregator, k crypto.Hash) bool = agg != nil && agg.Snapshot != nil && agg.Snapshot.Hash == k &&
+//@     agg.Snapshot.Timestamp < 9223372036854775808 && agg.Commitments != nil && agg.Responses != nil &&
+//@     allocated(agg.Commitments) && allocated(agg.Responses) &&
+//@     agg.Commitments != chain.CosiAggregators && agg.Commitments != chain.CosiVerifiers && agg.Responses != chain.CosiAggregators && agg.Responses != chain.CosiVerifiers
+//@ spec AggsOK(chain *Chain) bool = forall k crypto.Hash :: {has(chain.CosiAggregators, k)} has(chain.CosiAggregators, k) ==> AggOK(chain, chain.CosiAggregators[k], k)
+
+// Young: the round gap since the proposal's timestamp has not passed. Complete: the commitment threshold is reached and every commitment has its response.
+//@ spec Young(agg *CosiAggregator, now uint64) bool = now < agg.Snapshot.Timestamp + config.SnapshotRoundGap
+//@ spec Complete(chain *Chain, agg *CosiAggregator) bool = len(agg.Commitments) >= ThresholdAt(chain.node, agg.Snapshot.Timestamp, false) && len(agg.Responses) == len(agg.Commitments)
+// TxsRequeued(st, s): every transaction of snapshot s that is still unfinalized and has a body is in the cache queue.
+//@ spec TxsRequeued(st storage.Store, s *common.Snapshot) bool = forall i int :: {s.Transactions[i]} 0 <= i && i < len(s.Transactions) && Eligible(st, s.Transactions[i]) ==> Queued(st, s.Transactions[i])
+// TxOf(s, h): h is a transaction of snapshot s
+//@ spec TxOf(s *common.Snapshot, h crypto.Hash) bool = exists i int :: 0 <= i && i < len(s.Transactions) && s.Transactions[i] == h
+
+// expireCosiAggregators(now): an aggregator that is expired (not young) and incomplete is retried: removed, and its transactions requeued
+// (unless the store returned an error); a young or complete aggregator stays untouched; only transactions of retried aggregators enter the queue.
+//@ func (chain *Chain) expireCosiAggregators
+//@   property C24
+//@   trustpre ConsensusThreshold -- NodeRep(node) belongs to C10
+//@   requires CosiChainOK(chain) && AggsOK(chain)
+//@   modifies chain.CosiAggregators[-], chain.CosiVerifiers[-], ghost bytes_cachequeue, ghost store_errors
+//@   ensures [expired-retried] forall k crypto.Hash :: {old(has(chain.CosiAggregators, k))} old(has(chain.CosiAggregators, k)) &&
+//@       !old(Young(chain.CosiAggregators[k], now)) && !old(Complete(chain, chain.CosiAggregators[k])) ==> !has(chain.CosiAggregators, k) &&
+//@       (StoreErrors(chain.node.persistStore) == old(StoreErrors(chain.node.persistStore)) ==> TxsRequeued(chain.node.persistStore, old(chain.CosiAggregators[k]).Snapshot))
+//@   ensures [untouched] forall k crypto.Hash :: {old(has(chain.CosiAggregators, k))} old(has(chain.CosiAggregators, k)) &&
+//@       (old(Young(chain.CosiAggregators[k], now)) || old(Complete(chain, chain.CosiAggregators[k]))) ==> has(chain.CosiAggregators, k) && chain.CosiAggregators[k] == old(chain.CosiAggregators[k])
+//@   ensures [only] forall h crypto.Hash :: {Queued(chain.node.persistStore, h)} Queued(chain.node.persistStore, h) != old(Queued(chain.node.persistStore, h)) ==>
+//@       !Finalized(chain.node.persistStore, h) && (exists k crypto.Hash :: old(has(chain.CosiAggregators, k)) && !old(Young(chain.CosiAggregators[k], now)) &&
+//@           !old(Complete(chain, chain.CosiAggregators[k])) && TxOf(old(chain.CosiAggregators[k]).Snapshot, h))
+//@   ensures [monotone] forall id mathint :: {QueuedId(chain.node.persistStore, id)} QueuedId(chain.node.persistStore, id) != old(QueuedId(chain.node.persistStore, id)) ==> QueuedId(chain.node.persistStore, id) == 1
+//@   loop 0 invariant [errors-grow] StoreErrors(chain.node.persistStore) >= old(StoreErrors(chain.node.persistStore))
+//@   loop 0 invariant [aggs-delete-only] forall k crypto.Hash :: {has(chain.CosiAggregators, k)} has(chain.CosiAggregators, k) ==> old(has(chain.CosiAggregators, k)) && chain.CosiAggregators[k] == old(chain.CosiAggregators[k])
+//@   loop 0 invariant [vers-delete-only] forall k crypto.Hash :: {has(chain.CosiVerifiers, k)} has(chain.CosiVerifiers, k) ==> old(has(chain.CosiVerifiers, k)) && chain.CosiVerifiers[k] == old(chain.CosiVerifiers[k])
+//@   loop 0 invariant [lengths] len(chain.CosiVerifiers) <= old(len(chain.CosiVerifiers)) && len(chain.CosiAggregators) <= old(len(chain.CosiAggregators))
+//@   loop 0 invariant [gone-visited] forall k crypto.Hash :: {has(chain.CosiAggregators, k)} {visited(k)} old(has(chain.CosiAggregators, k)) && !has(chain.CosiAggregators, k) ==> visited(k)
+//@   loop 0 invariant [parts-kept] forall k crypto.Hash :: {old(has(chain.CosiAggregators, k))} old(has(chain.CosiAggregators, k)) ==>
+//@       len(old(chain.CosiAggregators[k]).Commitments) == old(len(chain.CosiAggregators[k].Commitments)) && len(old(chain.CosiAggregators[k]).Responses) == old(len(chain.CosiAggregators[k].Responses))
+//@   loop 0 invariant [visited-retried] forall k crypto.Hash :: {visited(k)} visited(k) && old(has(chain.CosiAggregators, k)) &&
+//@       !old(Young(chain.CosiAggregators[k], now)) && !old(Complete(chain, chain.CosiAggregators[k])) ==> !has(chain.CosiAggregators, k) &&
+//@       (StoreErrors(chain.node.persistStore) == old(StoreErrors(chain.node.persistStore)) ==> TxsRequeued(chain.node.persistStore, old(chain.CosiAggregators[k]).Snapshot))
+//@   loop 0 invariant [visited-untouched] forall k crypto.Hash :: {visited(k)} visited(k) && old(has(chain.CosiAggregators, k)) &&
+//@       (old(Young(chain.CosiAggregators[k], now)) || old(Complete(chain, chain.CosiAggregators[k]))) ==> has(chain.CosiAggregators, k)
+//@   loop 0 invariant [only] forall h crypto.Hash :: {Queued(chain.node.persistStore, h)} Queued(chain.node.persistStore, h) != old(Queued(chain.node.persistStore, h)) ==>
+//@       !Finalized(chain.node.persistStore, h) && (exists k crypto.Hash :: old(has(chain.CosiAggregators, k)) && !old(Young(chain.CosiAggregators[k], now)) &&
+//@           !old(Complete(chain, chain.CosiAggregators[k])) && TxOf(old(chain.CosiAggregators[k]).Snapshot, h))
+//@   loop 0 invariant [monotone] forall id mathint :: {QueuedId(chain.node.persistStore, id)} QueuedId(chain.node.persistStore, id) != old(QueuedId(chain.node.persistStore, id)) ==> QueuedId(chain.node.persistStore, id) == 1
